@@ -63,6 +63,19 @@ inline Plan gen_plan(Rng& r, int cls, long case_index) {
         p.arm_ctor[0] = case_index % (npush + 1);
         if (r.chance(1, 4)) p.arm_ctor[1] = (long)r.below((uint64_t)npush + 1);
     }
+    if (cls == 'G' && r.chance(1, 3)) {
+        // targeted shape: one page per item (or two), one slow pusher, one fast pusher that runs >= 8 tickets ahead and whose
+        // page allocation fails for the ticket that follows the slow pusher's in the same lane, one popping thread
+        p.bounded = false; p.cap = -1; p.size_class = r.chance(2, 3) ? 5 : 4; p.prefill = 0; p.preadvance = (int)r.below(9);
+        p.nthreads = 3; for (auto& v : p.ops) v.clear();
+        int slow = 1 + (int)r.below(2), fast = 9 + (int)r.below(3), pops = 4 + (int)r.below(8);
+        for (int i = 0; i < slow; i++) p.ops[0].push_back(PlanOp{ (uint8_t)K_PUSH, i, 0 });
+        for (int i = 0; i < fast; i++) p.ops[1].push_back(PlanOp{ (uint8_t)(i & 1 ? K_EMPLACE : K_PUSH), 1000 + i, 0 });
+        for (int i = 0; i < pops; i++) p.ops[2].push_back(PlanOp{ (uint8_t)K_TRY_POP, 0, (uint16_t)r.below(300) });
+        p.focus_page_switch = true;
+        p.arm_alloc = 7 + (long)r.below(4);
+        return p;
+    }
     if (cls == 'G') {           // the k-th page allocation after the pre-advance fails
         int pages = std::max(1, std::min(npush + p.prefill, 8 + (npush + p.prefill) / kPerPage[p.size_class]));
         p.arm_alloc = case_index % (pages + 1);
@@ -80,6 +93,7 @@ inline bool run_case(Engine& E, const Plan& p, Rng& r, LinStats& ls) {
     hc.begin(p.cls, p.bounded ? p.cap : -1, plan_json(p));
     Outcome out;
     perturb_random(r, hook_ids());
+    if (p.focus_page_switch) perturb().focus(std::vector<int>{ 131 }, 20000 + (uint32_t)r.below(30000), 0);
     by_size(p.size_class, [&](auto sz) {
         constexpr int SZ = decltype(sz)::value;
         if (p.cls == 'U') { QU<SZ> q; E.run(q, p, out); }
